@@ -24,6 +24,32 @@ MISSED_FIRST = {
  "C07-2": "missed at first; C07 world gained a requires_encryption write-handler characteristic and a protected CCCD",
  "C05-1": "missed at first; C05 reference now treats may_require_encryption as transparent (nearest explicit level decides) and judges those 7 placements",
  "C06-2": "missed at first; C06 gained Read Blob / Prepare Write offsets >= 256 and a 300 octet value",
+ "C02-w2-1": "missed at first; C02 gained 128-bit near misses of every base-form UUID (one octet changed)",
+ "C03-w2-2": "missed at first; C03 gained Find By Type Value values that are prefixes/suffixes (length 0..16) of the service UUIDs and a configuration whose 128-bit UUIDs start/end with a 16-bit UUID of the same server",
+ "C04-w2-2": "missed at first; C04 now fetches every attribute also through Read Blob, Read Multiple and Read By Type and compares with Read",
+ "C07-w2-1": "missed at first; C07 gained a unit with max_mtu_size<512>, shared_write_queue<700> and prepared writes of 250..300 octets",
+ "C08-w2-2": "missed at first; C08 probes now include over-long requests of 16 kinds (incl. Prepare Write) against the negotiated MTU",
+ "C15-w2-1": "missed at first (needs an interrupt between two statements of commit_transmit_buffer); C15 gained 'radio interrupt arrives at the lock acquisition' actions via a hook in the harness lock_guard",
+ "C15-w2-2": "missed at first; C15 gained TransmitSize != ReceiveSize units and a buffer placement oracle",
+ "C16-w2-2": "missed at first (code in nrf52.cpp was replaced by the fake Hardware); C16/C17 gained a unit that compiles the real nrf52.cpp against a generated register stub and enumerates encryption start/stop/setup orders (nonce uniqueness)",
+ "C17-w2-2": "missed at first; same new unit: all 128 combinations of CRC / ENDCRYPT / MICSTATUS / length / encryption through the real received_pdu()",
+ "C20-w2-2": "missed at first; C20 gained sequences of two and three channel map resets / LL_CHANNEL_MAP_REQ (rejected then valid)",
+ "C21-w2-1": "missed at first; C21 gained 'connection ends while a procedure waits for its instant, then a new connection'",
+ "C23-w2-1": "missed at first; C23 LL world gained application initiated LL procedures as pending output",
+ "C24-w2-1": "missed at first (redundant removes were pruned as no-ops); C24 now executes redundant add/remove against an independent reference set",
+ "C24-w2-2": "missed at first; C24 gained advertising intervals that are not multiples of 5 ms",
+ "C27-w2-1": "missed at first; C27 gained feature-exchange histories and checks the reject form against the negotiated features",
+ "C27-w2-2": "missed at first; C27 gained a unit for the asynchronous connection parameter request option",
+ "C28-w2-2": "missed at first; the C28 bond-DB unit now runs the real combined security manager with SMP traffic and LL_ENC_REQ(0,0)",
+ "C29-w2-2": "missed at first; C29 now demands the exact close reason where the cause is unambiguous and has valid channel map updates in its alphabet",
+ "C31-w2-1": "ended with a harness NONDETERMINISM error at first (ASan reports a PC only once per process); the C31 signaling units now report every error",
+ "C39-w2-2": "missed at first; the C39 content reference now survives interleaved control point procedures that do not leave flash mode",
+ "C10-w2-1": "missed at first; C10 gained servers with include declarations",
+ "C10-w2-2": "missed at first; C10 gained a server with a duplicated characteristic UUID (documented: the first one is notified)",
+ "C32-w2-2": "missed at first; SM world 'wrong value' variants now cover first / middle / last octet wrong and all-but-last wrong",
+ "C33-w2-1": "missed at first; find_key probes gained Rand values with zero low 32 bits and further EDIV/Rand neighbours",
+ "C33-w2-2": "missed at first; bond DB configuration with an old entry under (0,0)",
+ "C35-w2-2": "missed at first; passkeys >= 65536 with both halves non-zero and mod-65536 wrong values",
 }
 res = {}
 for log in sys.argv[1:]:
